@@ -592,3 +592,45 @@ def tree_9(ctx, rep):
                             rep.ob('TREE-9', rel, f.qual, norm(n), why is None,
                                    'the value stored in slot %s is pickled with the tree: %s' % (sub.attr, why))
     rep.minimum('TREE-9', 10)
+
+
+# ---------------------------------------------------------------------------
+# TREE-10: the position lookup returns what its descent located
+# ---------------------------------------------------------------------------
+def tree_10(ctx, rep):
+    rep.rule('TREE-10', 'BaseNode.get_leaf_for_position returns only None, a child it selected from self.children by its '
+                        'search bounds, or the result of the same lookup on that child; no sibling / leaf navigation '
+                        '(get_next_leaf, get_previous_leaf, get_first_leaf ...) substitutes another leaf for the located one')
+    f = ctx.prog.func(TREE, 'BaseNode.get_leaf_for_position')
+    funcs = [f] + list(f.nested.values())
+    names = {g.name for g in funcs}
+    n_ret = 0
+    for g in funcs:
+        sn = ctx.cg.self_name(f)
+        # locals that hold a child selected by index
+        located = set()
+        for n in walk_own(g.node):
+            if isinstance(n, ast.Assign) and len(n.targets) == 1 and isinstance(n.targets[0], ast.Name) \
+                    and isinstance(n.value, ast.Subscript) and norm(n.value.value) == '%s.children' % sn:
+                located.add(n.targets[0].id)
+        for n in walk_own(g.node):
+            if not isinstance(n, ast.Return) or n.value is None:
+                continue
+            v = n.value
+            n_ret += 1
+            ok = False
+            if isinstance(v, ast.Constant) and v.value is None:
+                ok = True
+            elif isinstance(v, ast.Name) and v.id in located:
+                ok = True
+            elif isinstance(v, ast.Subscript) and norm(v.value) == '%s.children' % sn:
+                ok = True
+            elif isinstance(v, ast.Call):
+                fn = v.func
+                if isinstance(fn, ast.Name) and fn.id in names:
+                    ok = True                                   # the search recursing on narrower bounds
+                elif isinstance(fn, ast.Attribute) and fn.attr == f.name and isinstance(fn.value, ast.Name) and fn.value.id in located:
+                    ok = True                                   # the same lookup on the located child
+            rep.ob('TREE-10', TREE, g.qual, 'return %s' % norm(v), ok,
+                   'the lookup hands out %s instead of the child its search located (or that child\'s own lookup result)' % norm(v))
+    rep.minimum('TREE-10', 5)
